@@ -821,6 +821,21 @@ def op_node_attrs(w, a, b, c, d):
     if n is None:
         return None
     k = b % 8
+    if (b >> 3) % 9 == 4:
+        # several attributes at once through the mapping interface, optionally with an item that is not an attribute
+        # (or a key that is not a string) planted at position k
+        items = [(f"multi{i}", ir.AttrInt64(f"multi{i}", (c + i) % 5)) for i in range(1 + (b >> 7) % 3)]
+        how = (b >> 10) % 4
+        pos = (b >> 12) % len(items)
+        if how == 1:
+            items[pos] = (items[pos][0], "not an attribute")
+        elif how == 2:
+            items[pos] = (7, items[pos][1])
+        if (b >> 15) % 2:
+            n.attributes.update(dict(items) if how != 2 else items)
+        else:
+            n.attributes.update(items)
+        return None
     if k == 0:
         n.name = name_from(w, c)
     elif k == 1:
